@@ -38,9 +38,13 @@ func C20(p *core.Program, r *core.Report) {
 	sr := p.Func(bp7, "DTLSRPeerData", "ShouldReplace")
 	okSR := false
 	for _, rv := range core.ReturnValues(sr, 0) {
-		if b, ok := rv.V.(*ssa.BinOp); ok && b.Op == token.GTR {
-			bx, px, _ := core.FieldRef(b.X)
-			by, py, _ := core.FieldRef(b.Y)
+		if b, ok := rv.V.(*ssa.BinOp); ok {
+			big, small, strict, isOrd := core.Greater(b)
+			if !isOrd || !strict {
+				continue
+			}
+			bx, px, _ := core.FieldRef(big)
+			by, py, _ := core.FieldRef(small)
 			if len(px) == 1 && len(py) == 1 && px[0] == "Timestamp" && py[0] == "Timestamp" && rootParamIdx(sr, bx) == 0 && rootParamIdx(sr, by) == 1 {
 				okSR = true
 			}
